@@ -35,7 +35,7 @@ class LifecycleScenario(BaseScenario):
     level = "fault_enumeration"
 
     def __init__(self):
-        self.expected_probes = ["abort_at_0", "abort_mid", "abort_at_end", "exit_normal", "exit_close", "exit_double_close", "exit_helper_abort", "exit_helper_r", "exit_save_as",
+        self.expected_probes = ["abort_at_0", "abort_mid", "abort_at_end", "exit_normal", "exit_close", "exit_double_close", "exit_helper_abort", "exit_helper_r", "exit_save_as", "in_memory_workspace",
                                 "stale_getter_closed_error", "stale_getter_value", "stale_setter_refused", "reopen_same_object"]
         self.rule = ("one evaluation = one (history, crash point, exit kind) triple. For each seeded history of n <= 12 world-machine operations inside "
                      "`with Workspace(...)`, the block is aborted by an exception after o_k for EVERY k in 0..n (exhaustive over crash points of that history), "
@@ -45,7 +45,7 @@ class LifecycleScenario(BaseScenario):
                             "h5py/HDF5/numpy and sim/rawgeoh5.py are trusted"]
 
     def make_config(self, rng):
-        return {"version": rng.choices([2.1, 2.0, 1.0], [6, 3, 1])[0], "start": "disk", "two_ws": False,
+        return {"version": rng.choices([2.1, 2.0, 1.0], [6, 3, 1])[0], "start": rng.choices(["disk", "bytesio"], [4, 1])[0], "two_ws": False, "concat_seed": rng.random() < 0.35,
                 "gc": rng.choices(["none", "op", "io"], [3, 4, 3])[0], "gc_density": rng.choice([0.15, 0.4]), "keep_prob": 1.0,
                 "h5repack": rng.choices(["absent", "ok", "fail"], [3, 2, 1])[0], "n_ops": rng.choice([2, 4, 6, 9, 12]), "tidy": True,
                 "disabled": [k for k in ("rm_parent", "close_reopen", "reopen_same", "save_as", "list", "drop", "mk_dup", "move_data", "copy_extent", "pg_rm", "pg_del")]}
@@ -70,8 +70,18 @@ class LifecycleScenario(BaseScenario):
             world = World(sim, cfg, "C11", [])
             world.weights = lambda: dict(OP_KINDS)
             world.open_initial()
-            for i in range(cfg["n_ops"]):
-                op = world.gen_op(rng, i)
+            seeded = []
+            if cfg.get("concat_seed") and cfg.get("version", 2.1) >= 2.0:
+                # the history starts with a drillhole group and a hole in it (the concatenated store has its own writes at close)
+                from . import build
+
+                r2 = random.Random(H(seed, "seeded"))
+                seeded = [{"id": 0, "k": "mk_group", "sub": r2.getrandbits(64), "h": "A", "keep": False, "cls": "DrillholeGroup", "name": "dh group",
+                           "t": {"by": None, "n": 0, "fb": 0, "want": "container"}},
+                          {"id": 1, "k": "mk_object", "sub": r2.getrandbits(64), "h": "A", "keep": r2.random() < 0.5, "cls": "Drillhole",
+                           "t": {"by": 0, "n": 0, "fb": 0, "want": "groupish"}, "args": build.gen_object_args(r2, "Drillhole")}]
+            for i in range(max(cfg["n_ops"], len(seeded))):
+                op = seeded[i] if i < len(seeded) else world.gen_op(rng, i)
                 ops.append(op)
                 world.apply(op)
                 if world.suspect:
@@ -182,9 +192,10 @@ class LifecycleScenario(BaseScenario):
                             sim.probe("exit_helper_on_closed")
                         elif exit_kind == "save_as":
                             # the workspace moves to a copy of its file: it is closed (flushed), copied and re-opened on the copy
-                            world.saved_from = handle.path
+                            world.saved_from = None if handle.bytesio else handle.path
                             handle.path = sim.path("saved_as.geoh5")
                             ws.save_as(handle.path)
+                            handle.bytesio = False
                             sim.probe("exit_save_as")
                         else:
                             sim.probe("exit_normal")
@@ -206,6 +217,13 @@ class LifecycleScenario(BaseScenario):
                 if world.suspect:
                     out["suspect"] = world.suspect
                 else:
+                    if handle.bytesio:
+                        # a workspace living in memory: what its closed buffer holds is "the file"
+                        from io import BytesIO
+
+                        if isinstance(ws.h5file, BytesIO):
+                            handle.path.write_bytes(ws.h5file.getbuffer())
+                            sim.probe("in_memory_workspace")
                     self.after_close(world, sim, base_objects, Geoh5FileClosedError, Workspace)
             except Violation as vio:
                 out["violation"] = {"prop": vio.prop, "tag": vio.tag, "detail": f"after o_1..o_{k} ({exit_kind}): {vio.detail}", "discr": vio.discr, "event": sim.events, "k": k}
@@ -269,7 +287,7 @@ class LifecycleScenario(BaseScenario):
         # (v) re-opening the same object restores full access to the same content -- the content of the FILE: in half of the
         # histories another workspace object edits a data type in the file while this one is closed
         edited = None
-        if random.Random(H(sim.seed, "elsewhere")).random() < 0.5:
+        if not handle.bytesio and random.Random(H(sim.seed, "elsewhere")).random() < 0.5:     # (a buffer in memory has no other party)
             import uuid as _uuid
 
             cands = sorted(u for u, r in model.recs.items() if r["kind"] == "data" and not r.get("concat"))
